@@ -3,6 +3,7 @@
 package checks
 
 import (
+	"time"
 	"math"
 	"fmt"
 	"math/rand"
@@ -272,6 +273,38 @@ func C02(e *Env) {
 			run.Sample(map[string]any{"object": s.obj, "target": t.name, "buffer_size": t.buf, "requests": trimReqs(s.reqs)})
 		}
 	})
+	// "after a file under the root is opened, the announced size ... are the file's": of the file that the
+	// path names at that open. Between two opens of one path on one connection the file is replaced the
+	// way tools do it (write a temporary file, rename it over the name: another inode), made longer,
+	// shorter, and put back; every open must announce and every read must serve what is there now.
+	must(os.MkdirAll(filepath.Join(root, "repl"), 0o755))
+	for ti, t := range targets {
+		for k := 0; k < e.Pick(3, 12); k++ {
+			name := fmt.Sprintf("repl/r%d_%d.bin", ti, k)
+			osp := filepath.Join(root, name)
+			sizes := []int64{13, 4800, 70001, 1, 2048, 100000}
+			must(os.WriteFile(osp, tree.Content(int64(9000+k), sizes[k%len(sizes)]), 0o644))
+			reqs := []wire.Req{wire.P(wire.OpOpen, "/"+name), wire.Read(1<<20, 0), wire.P(wire.OpOpen, "/"+name), wire.Read(1<<20, 0), wire.Crit(1, 0),
+				wire.P(wire.OpOpen, "/"+name), wire.Read(100, 5), wire.P(wire.OpStat, "/"+name), wire.P(wire.OpOpen, "/"+name), wire.Read(1<<20, 0)}
+			step := 0
+			res := RunLockstepOpt(t.p.HostPort(), t.w, reqs, e.Watchdog, LockOpt{OnStep: func(i int, r wire.Req, t0, t1 time.Time) {
+				if i+1 < len(reqs) && reqs[i+1].Op == wire.OpOpen { // only between the last use of one open and the next open
+					step++
+					tmp := osp + ".tmp"
+					must(os.WriteFile(tmp, tree.Content(int64(9100+10*k+step), sizes[(k+step)%len(sizes)]), 0o644))
+					old := time.Unix(1500000000+int64(1000*step), 0)
+					must(os.Chtimes(tmp, old, old))
+					must(os.Rename(tmp, osp))
+				}
+			}})
+			run.Eval(len(reqs))
+			run.Sig("plain replaced-between-opens %s", t.name)
+			if res.Fail != nil {
+				wit := map[string]any{"object": name, "target": t.name, "requests": trimReqs(reqs), "failed_at": res.FailAt, "failed_request": reqAt(reqs, res.FailAt), "transcript": tailStr(res.Log, 10), "note": "before every OPEN but the first the file was replaced by rename (new inode, other size and mtime)"}
+				judgeModelFail(e, res.Fail, reqs, res.FailAt, "", "replaced-between-opens", fmt.Sprintf("[file replaced by rename between two opens of %s on one connection, via %s] %s", name, t.name, res.Fail.Detail), wit)
+			}
+		}
+	}
 	run.Obs("objects", len(objs))
 	run.Obs("buffer_sizes", bufSizes)
 	run.Obs("sessions", len(list))
